@@ -31,12 +31,15 @@ Section Dec.
   Variable iend : Z.          (* srcSize *)
   Variable oend : Z.          (* outputSize *)
   Variable lowPrefix : Z.     (* <= 0 *)
+  Variable rlow : Z.          (* lowest address below dst the caller made readable (start of the prefix):
+                                 equals lowPrefix except for withPrefix64k, where lowPrefix is dst-64KB
+                                 although the prefix may be one byte shorter *)
   Variable dictm : mem.
   Variable dictSize : Z.
 
   Definition rd_src (a n : Z) : bool := (n <=? 0) || ((0 <=? a) && (a + n <=? iend)).
   Definition wr (a n : Z) : bool := (n <=? 0) || ((0 <=? a) && (a + n <=? oend)).
-  Definition rd_dst (a n : Z) : bool := (n <=? 0) || ((lowPrefix <=? a) && (a + n <=? oend)).
+  Definition rd_dst (a n : Z) : bool := (n <=? 0) || ((rlow <=? a) && (a + n <=? oend)).
   Definition rd_dict (a n : Z) : bool := (n <=? 0) || ((0 <=? a) && (a + n <=? dictSize)).
 
   Definition checkOffset : bool := dictSize <? 65536.
